@@ -20,7 +20,8 @@ LEVEL = "exploration"
 RULE = (
     "Constructed date-monotone multi-account histories (2-3 exchanges x 1-2 holders, transfers between all account pairs "
     "incl. to-self, with and without fee) of 4-18 transactions, valid by construction, x methods x random to-date; with "
-    "allow_negative_balances an overdraft is injected on purpose in a third of the cases. Oracle: per-account flow sums "
+    "allow_negative_balances an overdraft is injected on purpose in a third of the cases and in a further quarter some debits "
+    "are moved to an account that nothing funds (the unrecorded-transfer scenario the switch exists for). Oracle: per-account flow sums "
     "from the rows + reconciliation with the fraction list. Non-trivial = >= 2 accounts and >= 1 transfer; distinct by hash."
 )
 ASSUMPTIONS = [
@@ -43,6 +44,8 @@ def strategy_case(draw: Any) -> Dict[str, Any]:
     case["overdraft"] = None
     if allow and draw(st.integers(0, 2)) == 0:
         case["overdraft"] = draw(inject_overdraft(case))
+    elif allow and draw(st.integers(0, 2)) == 0:
+        case["overdraft"] = draw(unfunded_account(case))
     txs = model.make_txs(case["rows"])
     case["to"] = draw(gen.window_date(txs)) if draw(st.booleans()) else None
     case["from"] = None
@@ -52,6 +55,41 @@ def strategy_case(draw: Any) -> Dict[str, Any]:
         if first and (case["to"] is None or first <= case["to"]):
             case["from"] = first
     return case
+
+
+@st.composite
+def unfunded_account(draw: Any, case: Dict[str, Any]) -> Any:
+    """What allow_negative_balances exists for: the transfer that funded an account was never recorded, so that account only
+    ever pays out.  One or more debits are moved to an account nothing else in the history touches (a further configured
+    exchange when every account is in use); the holding as a whole still covers them."""
+    rows = case["rows"]
+    targets = [i for i, r in enumerate(rows) if r["row"] >= 0 and r["table"] in ("out", "intra")]
+    if not targets:
+        return None
+    used = set()
+    for r in rows:
+        if r["table"] == "intra":
+            used.add((r["from_ex"], r["from_ho"]))
+            used.add((r["to_ex"], r["to_ho"]))
+        else:
+            used.add((r["ex"], r["ho"]))
+    free = [(e, h) for e in case["exchanges"] for h in case["holders"] if (e, h) not in used]
+    if not free:
+        extra = [e for e in gen.EXCHANGE_NAMES if e not in case["exchanges"]]
+        if not extra:
+            return None
+        case["exchanges"] = list(case["exchanges"]) + [extra[0]]
+        free = [(extra[0], h) for h in case["holders"]]
+    account = draw(st.sampled_from(free))
+    chosen = draw(st.lists(st.sampled_from(targets), min_size=1, max_size=3, unique=True))
+    for i in chosen:
+        row = dict(rows[i])
+        if row["table"] == "intra":
+            row["from_ex"], row["from_ho"] = account
+        else:
+            row["ex"], row["ho"] = account
+        rows[i] = row
+    return {"unfunded_account": list(account), "rows": sorted(rows[i]["row"] for i in chosen)}
 
 
 def strategy(tier: str) -> Any:
@@ -166,7 +204,7 @@ def evaluate(case: Dict[str, Any]) -> Outcome:
     if to_date is not None and any(t.day > to_date for t in txs):
         out.classes.add("to_date_cuts_history")
     if case.get("overdraft"):
-        out.classes.add("overdraft_injected")
+        out.classes.add("unfunded_account_pays_out" if "unfunded_account" in case["overdraft"] else "overdraft_injected")
     dump = drive_api.run_case(case, from_date="", to_date=case.get("to") or "")
     if not dump["ok"]:
         if model.overspend_somewhere(txs):
